@@ -756,6 +756,26 @@ def run_shard(spec_, res):
             res.count("generated_unusable")
             continue
         run_edits(res, f"generated:{'ref-encoded' if k % 2 else 'rv-written'}#{idx}", raw, c.describe(), rng, tier)
+    # the same bytes handed over in every kind of stream and under odd file names: what they denote does not depend on that
+    import shutil
+    import tempfile
+    tdir = tempfile.mkdtemp(prefix="rvmon-c04-", dir=os.environ.get("TMPDIR", "/var/tmp"))
+    try:
+        todo = []
+        for name in spec_["fixtures"][:2]:
+            with open(os.path.join(env.FIXTURE_DIR, name), "rb") as f:
+                todo.append((f.read(), {"fixture": name}))
+        try:
+            c = workload.project_case(seed, 660000 + spec_["shard"], tier, max_modules=5)
+            todo.append((refcodec.encode(build.norm(c.snap, "before"), refcodec.Choices(rng)), c.describe()))
+        except Exception:
+            res.count("generated_unusable")
+        for k, (raw, desc) in enumerate(todo):
+            sub = os.path.join(tdir, str(k))
+            os.makedirs(sub)
+            workload.loads_through_streams_and_names(res, "C04", raw, _snap, desc, sub)
+    finally:
+        shutil.rmtree(tdir, ignore_errors=True)
     for name, msg in monitors.take_failures():
         res.violation(f"C04:ambient:{name}", msg, {"monitor": name})
     if spec_["shard"] == 0:
